@@ -170,5 +170,8 @@ pub fn gaussian_tau(epsilon: f64, delta: f64, max_privacy_unit_groups: f64) -> f
     let dist = Normal::new(0.0, 1.0).unwrap();
     let scale = gaussian_noise(epsilon, delta, max_privacy_unit_groups.sqrt());
     // TODO: we want to overestimate tau
-    1. + scale * dist.inverse_cdf((1. - delta).powf(1. / max_privacy_unit_groups))
+    // tau is never below 1: a group held by one privacy unit is not released without noise
+    1. + scale * dist
+        .inverse_cdf((1. - delta).powf(1. / max_privacy_unit_groups))
+        .max(0.)
 }
